@@ -267,6 +267,12 @@ func drive(w *world.World, q request, regs map[string]registration, grantOpenID 
 	}
 	zz.Cover("request-accepted", true)
 	checkAccepted(q, regs)
+	respond(w, ar, q, regs, grantOpenID)
+}
+
+// respond: the response half of the authorization endpoint for the accepted request ar (whose
+// effective parameters are q).
+func respond(w *world.World, ar fosite.AuthorizeRequester, q request, regs map[string]registration, grantOpenID bool) {
 	for _, s := range ar.GetRequestedScopes() {
 		if s != "openid" || grantOpenID {
 			ar.GrantScope(s)
@@ -441,6 +447,76 @@ func ZZ_C13_flows() {
 	q.prompt = []string{"", "none", "login", ""}[pm]
 	q.maxAge = []string{"", "", "60", "60"}[pm]
 	drive(w, q, regsOf(r), zz.Choice("grant_openid", 2) == 1)
+}
+
+// ZZ_C13_par: a pushed authorization request continued at the authorization endpoint. The pushed
+// request is validated like a front-channel one; the continuation (client_id + request_uri, possibly
+// with further front-channel parameters next to it) yields a request whose effective parameters satisfy
+// the same conditions, and its state is the one echoed.
+func ZZ_C13_par() {
+	r := defaultRegistration()
+	r.hasModes, r.modes = true, modeRegs[4]
+	signer := world.NewModelSigner()
+	w := world.New(world.Options{
+		Extra: []compose.Factory{compose.OpenIDConnectExplicitFactory, compose.OpenIDConnectImplicitFactory, compose.OpenIDConnectHybridFactory, compose.PushedAuthorizeHandlerFactory},
+		TweakStrategy: func(s *compose.CommonStrategy, cfg *fosite.Config) {
+			s.OpenIDConnectTokenStrategy = &openid.DefaultStrategy{Signer: signer, Config: cfg}
+			s.Signer = signer
+		},
+		Tweak: func(cfg *fosite.Config) {
+			cfg.FormPostHTMLTemplate = template.Must(template.New("zz_form_post").Parse(zz.FormPostTemplate))
+			cfg.HTTPClient = zz.SpyHTTPClient()
+		},
+	})
+	c := w.Store.Clients["c1"].(*fosite.DefaultClient)
+	c.Scopes = []string{"openid", "photos"}
+	c.RedirectURIs = []string{redirectURI}
+	w.Store.Clients["c1"] = &fosite.DefaultResponseModeClient{DefaultClient: c, ResponseModes: r.modes}
+	regs := regsOf(r)
+
+	q := request{clientID: "c1", redirect: redirectURI, scope: "openid photos"}
+	q.responseType = []string{"code", "token", "code id_token"}[zz.Choice("rt", 3)]
+	q.state = zz.String("state", 10)
+	q.nonce = "nonce-0123456789"
+	pushed := q.form()
+	pushed.Set("client_secret", world.Secret1)
+	par, err := w.Provider.NewPushedAuthorizeRequest(w.Ctx, world.Post(pushed))
+	zz.Observe("push-err", world.ErrName(err))
+	if err != nil {
+		zz.Cover("push-refused", true)
+		return
+	}
+	checkAccepted(q, regs)
+	presp, err := w.Provider.NewPushedAuthorizeResponse(w.Ctx, par, world.NewOIDCSession("peter"))
+	zz.Assume(err == nil)
+	front := url.Values{"client_id": {"c1"}, "request_uri": {presp.GetRequestURI()}}
+	frontState, hasFront := "", false
+	switch zz.Choice("front", 3) {
+	case 1:
+		frontState, hasFront = zz.String("front-state", 10), true
+		front.Set("state", frontState)
+	case 2:
+		front.Set("response_type", "token")
+		front.Set("response_mode", "query")
+	}
+	ar, err := w.Provider.NewAuthorizeRequest(w.Ctx, world.Get(front))
+	zz.Observe("continue-err", world.ErrName(err))
+	if err != nil {
+		zz.Cover("continuation-refused", true)
+		return
+	}
+	zz.Cover("continued", true)
+	zz.Cover("continued-with-front-state", hasFront)
+	eff := q
+	eff.state = ar.GetState()
+	eff.responseType = strings.Join(ar.GetResponseTypes(), " ")
+	eff.mode = ""
+	if ar.GetResponseMode() != ar.GetDefaultResponseMode() {
+		eff.mode = string(ar.GetResponseMode())
+	}
+	checkAccepted(eff, regs)
+	zz.Assert(eff.state == q.state || (hasFront && eff.state == frontState), "continuation: the state is one the client sent")
+	respond(w, ar, eff, regs, true)
 }
 
 // ZZ_C13_request_object: the `request` / `request_uri` parameters: a request_uri is honoured only if
